@@ -671,3 +671,328 @@ Proof. intros T w s0 ps pf q Hn Hall Hq.
   assert (G : Good T w s0 s0 ps). { split; [apply sle_refl|]. split; auto. }
   pose proof (good_propagate (Good T w s0) (Good_HP T w s0) ps pf s0 q Hq G) as H.
   destruct (fpropagate pf ps s0 q) as [[| |s'] l]; auto. destruct H as (A & B & _). auto. Qed.
+
+(* ================================================================ Stage 2 (floats): the setters on a store that is near w *)
+(* failure-freeness inside Magn: try_set_max with a bound not below the current minimum / try_set_min with a bound not above
+   the current maximum never fails (the rounded bound is clamped into the interval before the last test) *)
+Lemma tsmax_ff_no_fail : forall i v, magn_b i v = true -> R_ (imin i) <= R_ v -> tsmax_ff i v <> None.
+Proof. intros i v Mb L. assert (M := magn_b_MagnR i v Mb). destruct M as [W Fv S1 S2 Bmin Bmax Bv Bf].
+  assert (W' := W). destruct W' as (A & B & C & D & E). unfold tsmax_ff. cbv zeta.
+  destruct (_ && _); [discriminate|].
+  replace (flt v (imin i)) with false by (symmetry; apply flt_fin_f; auto).
+  destruct (flt v (fsub (imax i) (ctx_tol i))); [|discriminate].
+  destruct (quant_float mode_DN v (istep i) (or_intror eq_refl) Fv C S1 S2 Bv) as (Fn & _).
+  change (Binary.Bnearbyint 53 1024 Hpe unop_nan_pl64 mode_DN) with ffloor in *.
+  set (nm0 := fmul (ffloor (fdiv v (istep i))) (istep i)) in *.
+  destruct (flt nm0 (imin i)) eqn:T3.
+  - rewrite (flt_above_sub_tol i (imin i) W A) by lra. discriminate.
+  - apply flt_fin_f in T3; auto. rewrite (flt_above_sub_tol i nm0 W Fn T3). discriminate. Qed.
+Lemma tsmin_ff_no_fail : forall i v, magn_b i v = true -> R_ v <= R_ (imax i) -> tsmin_ff i v <> None.
+Proof. intros i v Mb L. assert (M := magn_b_MagnR i v Mb). destruct M as [W Fv S1 S2 Bmin Bmax Bv Bf].
+  assert (W' := W). destruct W' as (A & B & C & D & E). unfold tsmin_ff. cbv zeta.
+  destruct (_ && _); [discriminate|].
+  rewrite (fgt_below_add_tol i v W Fv L).
+  destruct (fgt v (fadd (imin i) (ctx_tol i))); [|discriminate].
+  destruct (quant_float mode_UP v (istep i) (or_introl eq_refl) Fv C S1 S2 Bv) as (Fn & _).
+  change (Binary.Bnearbyint 53 1024 Hpe unop_nan_pl64 mode_UP) with fceil in *.
+  set (nm0 := fmul (fceil (fdiv v (istep i))) (istep i)) in *.
+  destruct (fgt nm0 (imax i)) eqn:T3.
+  - rewrite (fgt_below_add_tol i (imax i) W B) by lra. discriminate.
+  - apply fgt_fin_f in T3; auto. rewrite (fgt_below_add_tol i nm0 W Fn T3). discriminate. Qed.
+
+(* the interval part of `near` *)
+Definition near_iv (T : R) (i : fint) (r : R) : Prop :=
+  wf i /\ R_ (imin i) - T * R_ (istep i) <= r <= R_ (imax i) + T * R_ (istep i).
+
+(* an upper bound v with margin T steps above the witness (T >= 2.01): try_set_max(v) succeeds, the result is well-formed, not
+   wider, and still near the witness -- from a store in which the witness may already be outside the interval by T steps *)
+Lemma near_tsmax : forall T i v r, 201/100 <= T -> magn_b i v = true -> near_iv T i r -> r + T * R_ (istep i) <= R_ v ->
+  exists i' e, tsmax_ff i v = Some (i', e) /\ near_iv T i' r /\ sle_var (VF i') (VF i).
+Proof. intros T i v r HT Mb (W & Hlo & Hhi) Hm.
+  assert (M := magn_b_MagnR i v Mb). destruct M as [_ Fv S1 S2 Bmin Bmax Bv Bf].
+  assert (W' := W). destruct W' as (A & B & C & D & E).
+  assert (Lmin : R_ (imin i) <= R_ v) by lra.
+  destruct (tsmax_ff i v) as [[i' e]|] eqn:Et. 2:{ exfalso. eapply tsmax_ff_no_fail; eauto. }
+  exists i', e. split; auto.
+  destruct (tsmax_ff_magn i v i' e Mb Et) as ((Es & N1 & N2) & Emin & Fmx & _ & Loss).
+  destruct (tsmax_ff_order i v i' e W Fv Et) as (_ & _ & _ & Ord & _).
+  rewrite Emin in *. apply fle_fin in N2; auto. apply fle_fin in Ord; auto.
+  assert (W1 : wf i'). { repeat split; auto; try (rewrite Emin; auto); rewrite Es; auto. }
+  split; [|simpl; repeat split; auto; rewrite ?Emin; lra].
+  split; auto. rewrite Es, Emin. split; [lra|].
+  destruct Loss as [Ls|Ls]; [lra|].
+  assert (Rabs (R_ v) * m50 <= (1 + m50) * R_ (istep i)).
+  { unfold m50, p50 in *. lra. }
+  assert (201/100 * R_ (istep i) <= T * R_ (istep i)) by (apply Rmult_le_compat_r; lra).
+  unfold m50 in *. lra. Qed.
+Lemma near_tsmin : forall T i v r, 201/100 <= T -> magn_b i v = true -> near_iv T i r -> R_ v <= r - T * R_ (istep i) ->
+  exists i' e, tsmin_ff i v = Some (i', e) /\ near_iv T i' r /\ sle_var (VF i') (VF i).
+Proof. intros T i v r HT Mb (W & Hlo & Hhi) Hm.
+  assert (M := magn_b_MagnR i v Mb). destruct M as [_ Fv S1 S2 Bmin Bmax Bv Bf].
+  assert (W' := W). destruct W' as (A & B & C & D & E).
+  assert (Lmax : R_ v <= R_ (imax i)) by lra.
+  destruct (tsmin_ff i v) as [[i' e]|] eqn:Et. 2:{ exfalso. eapply tsmin_ff_no_fail; eauto. }
+  exists i', e. split; auto.
+  destruct (tsmin_ff_magn i v i' e Mb Et) as ((Es & N1 & N2) & Emax & Fmn & _ & Loss).
+  destruct (tsmin_ff_order i v i' e W Fv Et) as (_ & _ & _ & Ord & _).
+  rewrite Emax in *. apply fle_fin in N1; auto. apply fle_fin in Ord; auto.
+  assert (W1 : wf i'). { repeat split; auto; try (rewrite Emax; auto); rewrite Es; auto. }
+  split; [|simpl; repeat split; auto; rewrite ?Emax; lra].
+  split; auto. rewrite Es, Emax. split; [|lra].
+  destruct Loss as [Ls|Ls]; [lra|].
+  assert (Rabs (R_ v) * m50 <= (1 + m50) * R_ (istep i)).
+  { unfold m50, p50 in *. lra. }
+  assert (201/100 * R_ (istep i) <= T * R_ (istep i)) by (apply Rmult_le_compat_r; lra).
+  unfold m50 in *. lra. Qed.
+
+(* ---- a float variable against a float constant, with margin T steps: the contract holds for every base store inside Magn *)
+Lemma wsafe_float_le_const : forall T w base v i0 c, 201/100 <= T -> (v < length base)%nat -> fget base v = VF i0 ->
+  magn_b i0 c = true -> w v + T * R_ (istep i0) <= R_ c ->
+  wsafe_below T w base (mk_fleq (FVar v) (FConst (VlF c))).
+Proof. intros T w base v i0 c HT Hv Hg0 Mb0 Hm s Hle Hn.
+  destruct (sle_float w s base v i0 Hle Hg0) as (i & Hg & Es & L1 & L2).
+  assert (Hvs : (v < length s)%nat) by (destruct Hle as [L _]; lia).
+  assert (Hni := Hn v Hvs). rewrite Hg in Hni. change (near_var T (VF i) (w v)) with (near_iv T i (w v)) in Hni.
+  assert (Wi : wf i) by apply Hni.
+  assert (Mb : magn_b i c = true) by (eapply magn_preserved; eauto).
+  destruct (near_tsmax T i c (w v) HT Mb Hni) as (i' & e & Et & Hn' & Hs'). { rewrite Es. lra. }
+  assert (Fc : fin c) by (destruct (magn_b_MagnR i c Mb); auto).
+  exists (fupd s v (VF i')), (if e then [] ++ [v] else []). split; [|split].
+  - change (mk_fleq (FVar v) (FConst (VlF c))) with (left_prop v (VlF c)). rewrite left_prop_float.
+    rewrite (xset_max_float s v i c i' e [] Hg Et). cbn [fst]. rewrite fget_fupd_same by auto. cbn [var_min val_le as_f].
+    destruct Hn' as (W' & Hlo' & _). simpl in Hs'. destruct Hs' as (Es' & _).
+    replace (fle (imin i') c) with true; [reflexivity|].
+    symmetry. apply fle_fin; auto. apply W'. rewrite Es', Es in Hlo'. lra.
+  - apply near_fupd; auto.
+  - apply sle_fupd; auto. rewrite Hg. exact Hs'. Qed.
+
+Lemma wsafe_float_ge_const : forall T w base v i0 c, 201/100 <= T -> (v < length base)%nat -> fget base v = VF i0 ->
+  magn_b i0 c = true -> R_ c <= w v - T * R_ (istep i0) ->
+  wsafe_below T w base (mk_fleq (FConst (VlF c)) (FVar v)).
+Proof. intros T w base v i0 c HT Hv Hg0 Mb0 Hm s Hle Hn.
+  destruct (sle_float w s base v i0 Hle Hg0) as (i & Hg & Es & L1 & L2).
+  assert (Hvs : (v < length s)%nat) by (destruct Hle as [L _]; lia).
+  assert (Hni := Hn v Hvs). rewrite Hg in Hni. change (near_var T (VF i) (w v)) with (near_iv T i (w v)) in Hni.
+  assert (Wi : wf i) by apply Hni.
+  assert (Mb : magn_b i c = true) by (eapply magn_preserved; eauto).
+  destruct (near_tsmin T i c (w v) HT Mb Hni) as (i' & e & Et & Hn' & Hs'). { rewrite Es. lra. }
+  assert (Fc : fin c) by (destruct (magn_b_MagnR i c Mb); auto).
+  exists (fupd s v (VF i')), (if e then [] ++ [v] else []). split; [|split].
+  - cbn [fprune mk_fleq]. unfold prune_fleq. cbn [fv_set_max fv_set_min fv_max fv_min fst]. rewrite Hg. cbn [var_max].
+    unfold val_ge, val_le. cbn [as_f].
+    destruct Hni as (_ & _ & Hhi). destruct Wi as (A & B & C & D & E).
+    replace (fle c (imax i)) with true by (symmetry; apply fle_fin; auto; rewrite Es in Hhi; lra).
+    apply (xset_min_float s v i c i' e [] Hg Et).
+  - apply near_fupd; auto.
+  - apply sle_fupd; auto. rewrite Hg. exact Hs'. Qed.
+
+(* Magn w.r.t. a value between two values that are inside Magn *)
+Lemma magn_b_between : forall i a b v, magn_b i a = true -> magn_b i b = true -> fin v -> R_ a <= R_ v <= R_ b -> magn_b i v = true.
+Proof. intros i a b v Ma Mb Fv (L1 & L2).
+  assert (Fbnd : fin (fmul c_2p50 (istep i))) by exact (mg_bfin _ _ (magn_b_MagnR _ _ Ma)).
+  assert (Fa : fin a) by exact (mg_v _ _ (magn_b_MagnR _ _ Ma)). assert (Fb : fin b) by exact (mg_v _ _ (magn_b_MagnR _ _ Mb)).
+  unfold magn_b in *. repeat rewrite andb_true_iff in *.
+  destruct Ma as (((((((F1 & F2) & F3) & F4) & L) & S1) & S2) & ((B1 & B2) & B3)).
+  destruct Mb as (_ & ((_ & _) & B3')).
+  destruct (fabs_fin _ Fa) as (Ga & Ea). destruct (fabs_fin _ Fb) as (Gb & Eb). destruct (fabs_fin _ Fv) as (Gv & Ev).
+  apply fle_fin in B3; auto. apply fle_fin in B3'; auto. rewrite Ea in B3. rewrite Eb in B3'.
+  apply Rabs_le_inv in B3. apply Rabs_le_inv in B3'.
+  repeat split; auto. apply fle_fin; auto. rewrite Ev. apply Rabs_le. lra. Qed.
+
+(* ---- x <= y between two float variables with the same step, witness margin 2T steps *)
+Lemma wsafe_float_le_var : forall T w base x y ix0 iy0, 201/100 <= T -> x <> y ->
+  (x < length base)%nat -> (y < length base)%nat -> fget base x = VF ix0 -> fget base y = VF iy0 -> istep ix0 = istep iy0 ->
+  magn_b ix0 (imin iy0) = true -> magn_b ix0 (imax iy0) = true -> magn_b iy0 (imin ix0) = true -> magn_b iy0 (imax ix0) = true ->
+  w x + 2 * T * R_ (istep ix0) <= w y ->
+  wsafe_below T w base (mk_fleq (FVar x) (FVar y)).
+Proof. intros T w base x y ix0 iy0 HT Nxy Hx Hy Hgx0 Hgy0 Est M1 M2 M3 M4 Hm s Hle Hn.
+  destruct (sle_float w s base x ix0 Hle Hgx0) as (ix & Hgx & Esx & Lx1 & Lx2).
+  destruct (sle_float w s base y iy0 Hle Hgy0) as (iy & Hgy & Esy & Ly1 & Ly2).
+  assert (Hxs : (x < length s)%nat) by (destruct Hle as [L _]; lia).
+  assert (Hys : (y < length s)%nat) by (destruct Hle as [L _]; lia).
+  assert (Hnx := Hn x Hxs). rewrite Hgx in Hnx. change (near_var T (VF ix) (w x)) with (near_iv T ix (w x)) in Hnx.
+  assert (Hny := Hn y Hys). rewrite Hgy in Hny. change (near_var T (VF iy) (w y)) with (near_iv T iy (w y)) in Hny.
+  assert (Wx : wf ix) by apply Hnx. assert (Wy : wf iy) by apply Hny.
+  assert (Wx' := Wx). destruct Wx' as (Ax & Bx & Cx & Dx & Ex). assert (Wy' := Wy). destruct Wy' as (Ay & By & Cy & Dy & Ey).
+  assert (S0 : 0 < R_ (istep ix0)) by (rewrite <- Esx; auto).
+  (* step 1: x.try_set_max(y.max) *)
+  assert (Mb1 : magn_b ix (imax iy) = true).
+  { apply (magn_preserved ix0 ix (imax iy)); auto. apply (magn_b_between ix0 (imin iy0) (imax iy0)); auto. lra. }
+  destruct (near_tsmax T ix (imax iy) (w x) HT Mb1 Hnx) as (ix' & e1 & Et1 & Hnx' & Hsx').
+  { destruct Hny as (_ & _ & Hhi). rewrite Esy, <- Est in Hhi. rewrite Esx. lra. }
+  set (s1 := fupd s x (VF ix')).
+  assert (Hgy1 : fget s1 y = VF iy) by (unfold s1; rewrite fget_fupd_other; auto).
+  (* step 2: y.try_set_min(x.min) on the updated store *)
+  assert (Wx1 : wf ix') by apply Hnx'. destruct Wx1 as (Ax1 & Bx1 & Cx1 & Dx1 & Ex1).
+  simpl in Hsx'. destruct Hsx' as (Es1 & Lm1 & Lm2).
+  assert (Mb2 : magn_b iy (imin ix') = true).
+  { apply (magn_preserved iy0 iy (imin ix')); auto. apply (magn_b_between iy0 (imin ix0) (imax ix0)); auto. lra. }
+  destruct (near_tsmin T iy (imin ix') (w y) HT Mb2 Hny) as (iy' & e2 & Et2 & Hny' & Hsy').
+  { destruct Hnx' as (_ & Hlo & _). rewrite Es1, Esx in Hlo. rewrite Esy, <- Est. lra. }
+  exists (fupd s1 y (VF iy')), (if e2 then (if e1 then [] ++ [x] else []) ++ [y] else (if e1 then [] ++ [x] else [])).
+  split; [|split].
+  - cbn [fprune mk_fleq]. unfold prune_fleq. cbn [fv_set_max fv_set_min fv_max fv_min fst]. rewrite Hgy. cbn [var_max].
+    rewrite (xset_max_float s x ix (imax iy) ix' e1 [] Hgx Et1). cbn [fst]. fold s1.
+    unfold s1 at 1. rewrite fget_fupd_same by auto. cbn [var_min].
+    apply (xset_min_float s1 y iy (imin ix') iy' e2 _ Hgy1 Et2).
+  - apply near_fupd; auto. unfold s1. apply near_fupd; auto.
+  - eapply sle_trans with s1.
+    + apply sle_fupd. unfold s1. rewrite fupd_length. auto. rewrite Hgy1. exact Hsy'.
+    + unfold s1. apply sle_fupd; auto. rewrite Hgx. simpl. repeat split; auto. Qed.
+
+(* ================================================================ Stage 3: FloatLinLe -- the reduction *)
+Lemma magn_b_bounds : forall i v, magn_b i v = true -> magn_b i (imin i) = true /\ magn_b i (imax i) = true.
+Proof. intros i v H. unfold magn_b in *. repeat rewrite andb_true_iff in *.
+  destruct H as (((((((F1 & F2) & F3) & F4) & L) & S1) & S2) & ((B1 & B2) & B3)). repeat split; auto. Qed.
+
+(* the bound FloatLinLe computes for position i (coefficient coeff) on store s, and the value it passes to the setter *)
+Definition flin_bound (cs : list f64) (vs : list nat) (k : f64) (s : fstore) (i : nat) (coeff : f64) : f64 :=
+  fdiv (fsub k (sum_others (fun cj vj => term_min cj s vj) cs vs i 0 c_zero)) coeff.
+Definition flin_norm (b : f64) : f64 := if feq b c_zero then c_zero else b.
+
+(* ACCURACY HYPOTHESIS (what the numeric analysis of the binary64 accumulation has to deliver): on every store below the base
+   that is near w, whenever the computed bound is finite, it leaves the witness a margin of T steps of the variable *)
+Definition flin_acc_ok (T : R) (w : nat -> R) (base : fstore) (cs : list f64) (vs : list nat) (k : f64) : Prop :=
+  forall s, sle s base -> near T w s -> forall i coeff v iv, fget s v = VF iv ->
+    (fgt coeff c_zero = true -> fis_finite (flin_bound cs vs k s i coeff) = true ->
+       w v + T * R_ (istep iv) <= R_ (flin_bound cs vs k s i coeff)) /\
+    (fgt coeff c_zero = false -> fis_finite (flin_norm (flin_bound cs vs k s i coeff)) = true ->
+       R_ (flin_norm (flin_bound cs vs k s i coeff)) <= w v - T * R_ (istep iv)).
+(* the variables of the row are float variables of the base store, inside Magn *)
+Definition row_float (base : fstore) (vs : list nat) : Prop :=
+  forall v, In v vs -> exists i0, (v < length base)%nat /\ fget base v = VF i0 /\ magn_b i0 (imin i0) = true.
+
+Lemma flin_le_step_near : forall T w base cs vs k, 201/100 <= T -> flin_acc_ok T w base cs vs k ->
+  forall i coeff v i0, (v < length base)%nat -> fget base v = VF i0 -> magn_b i0 (imin i0) = true ->
+  forall s ev, sle s base -> near T w s ->
+  exists s' ev', flin_le_step cs vs k i coeff v (s, ev) = Some (s', ev') /\ near T w s' /\ sle s' s.
+Proof. intros T w base cs vs k HT Hacc i coeff v i0 Hv Hg0 Mb0 s ev Hle Hn.
+  destruct (sle_float w s base v i0 Hle Hg0) as (iv & Hg & Es & L1 & L2).
+  assert (Hvs : (v < length s)%nat) by (destruct Hle as [L _]; lia).
+  assert (Hni := Hn v Hvs). rewrite Hg in Hni. change (near_var T (VF iv) (w v)) with (near_iv T iv (w v)) in Hni.
+  assert (Wi : wf iv) by apply Hni. assert (Wi' := Wi). destruct Wi' as (A & B & C & D & E).
+  assert (Mbv : magn_b iv (imin i0) = true) by (eapply magn_preserved; eauto).
+  destruct (magn_b_bounds iv _ Mbv) as (Mmin & Mmax).
+  destruct (Hacc s Hle Hn i coeff v iv Hg) as (Hpos & Hneg).
+  unfold flin_le_step. destruct (flt (fabs coeff) c_zero_coeff). { exists s, ev. auto using sle_refl. }
+  cbn [fst]. fold (flin_bound cs vs k s i coeff).
+  destruct Hni as (_ & Hlo & Hhi).
+  destruct (fgt coeff c_zero) eqn:Ec.
+  - set (b := flin_bound cs vs k s i coeff) in *.
+    destruct (fis_finite b) eqn:Fb; [|exists s, ev; auto using sle_refl].
+    unfold ub_f. rewrite Hg. cbn [var_max as_f].
+    destruct (flt b (imax iv)) eqn:Lt; [|exists s, ev; auto using sle_refl].
+    specialize (Hpos eq_refl eq_refl). apply flt_fin in Lt; auto.
+    assert (Mb : magn_b iv b = true). { apply (magn_b_between iv (imin iv) (imax iv)); auto. lra. }
+    destruct (near_tsmax T iv b (w v) HT Mb (conj Wi (conj Hlo Hhi)) Hpos) as (i' & e & Et & Hn' & Hs').
+    exists (fupd s v (VF i')), (if e then ev ++ [v] else ev). split; [apply (xset_max_float s v iv b i' e ev Hg Et)|].
+    split. apply near_fupd; auto. apply sle_fupd; auto. rewrite Hg. exact Hs'.
+  - set (b := flin_norm (flin_bound cs vs k s i coeff)) in *. fold (flin_norm (flin_bound cs vs k s i coeff)). fold b.
+    destruct (fis_finite b) eqn:Fb; [|exists s, ev; auto using sle_refl].
+    unfold lb_f. rewrite Hg. cbn [var_min as_f].
+    destruct (fgt b (imin iv)) eqn:Gt; [|exists s, ev; auto using sle_refl].
+    specialize (Hneg eq_refl eq_refl). apply fgt_fin in Gt; auto.
+    assert (Mb : magn_b iv b = true). { apply (magn_b_between iv (imin iv) (imax iv)); auto. lra. }
+    destruct (near_tsmin T iv b (w v) HT Mb (conj Wi (conj Hlo Hhi)) Hneg) as (i' & e & Et & Hn' & Hs').
+    exists (fupd s v (VF i')), (if e then ev ++ [v] else ev). split; [apply (xset_min_float s v iv b i' e ev Hg Et)|].
+    split. apply near_fupd; auto. apply sle_fupd; auto. rewrite Hg. exact Hs'. Qed.
+
+Theorem flin_le_wsafe_partial : forall T w base cs vs k, 201/100 <= T -> row_float base vs -> flin_acc_ok T w base cs vs k ->
+  wsafe_below T w base (mk_flin_le cs vs k).
+Proof. intros T w base cs vs k HT Hrow Hacc s Hle Hn. cbn [fprune mk_flin_le]. unfold prune_flin_le.
+  assert (G : forall cs' vs' i s1 ev1, (forall v, In v vs' -> In v vs) -> sle s1 base -> near T w s1 ->
+    exists s' ev', flin_loop (flin_le_step cs vs k) cs' vs' i (s1, ev1) = Some (s', ev') /\ near T w s' /\ sle s' s1).
+  { induction cs' as [|c cs' IH]; intros vs' i s1 ev1 Hin Hle1 Hn1; simpl.
+    - exists s1, ev1. auto using sle_refl.
+    - destruct vs' as [|v vs']. { exists s1, ev1. auto using sle_refl. }
+      destruct (Hrow v (Hin v (or_introl eq_refl))) as (i0 & Hv & Hg0 & Mb0).
+      destruct (flin_le_step_near T w base cs vs k HT Hacc i c v i0 Hv Hg0 Mb0 s1 ev1 Hle1 Hn1) as (s2 & ev2 & E & Hn2 & Hle2).
+      rewrite E.
+      destruct (IH vs' (S i) s2 ev2) as (s3 & ev3 & E3 & Hn3 & Hle3); auto.
+      { intros u Hu. apply Hin. right; auto. } { eapply sle_trans; eauto. }
+      exists s3, ev3. split; auto. split; auto. eapply sle_trans; eauto. }
+  destruct (G cs vs 0%nat s [] (fun v H => H) Hle Hn) as (s' & ev' & E & Hn' & Hle'). eauto. Qed.
+
+(* ================================================================ Stage 3: the accumulation-error lemma *)
+(* `acc += term` in binary64, left to right, as FloatLinLe / FloatLinEq accumulate min_other / max_other *)
+Definition fsum (ts : list f64) (acc : f64) : f64 := fold_left fadd ts acc.
+Fixpoint rsum (ts : list f64) : R := match ts with [] => 0 | t :: r => R_ t + rsum r end.
+Fixpoint rabs_sum (ts : list f64) : R := match ts with [] => 0 | t :: r => Rabs (R_ t) + rabs_sum r end.
+(* no overflow: every partial sum is finite *)
+Fixpoint fsum_fin (ts : list f64) (acc : f64) : Prop :=
+  match ts with [] => True | t :: r => fin (fadd acc t) /\ fsum_fin r (fadd acc t) end.
+Definition eta0 : R := bpow radix2 (-1075).
+(* the error recurrence: one rounding adds at most u*(A + e) + eta to the error e, A bounding every exact partial sum *)
+Fixpoint err_after (n : nat) (A e : R) : R :=
+  match n with O => e | S n' => err_after n' A (e + u53 * (A + e) + eta0) end.
+
+Lemma rabs_sum_nonneg : forall ts, 0 <= rabs_sum ts.
+Proof. induction ts; simpl. lra. generalize (Rabs_pos (R_ a)). lra. Qed.
+Lemma err_after_mono : forall n A e e', e <= e' -> err_after n A e <= err_after n A e'.
+Proof. induction n; simpl; intros; auto. apply IHn. unfold u53. lra. Qed.
+
+(* if the accumulator is within e of x, and |x| + sum|t_j| <= A, then after adding the terms it is within
+   err_after (length ts) A e of x + sum t_j *)
+Lemma fsum_error : forall ts acc x A e, fin acc -> Forall fin ts -> fsum_fin ts acc -> 0 <= e ->
+  Rabs (R_ acc - x) <= e -> Rabs x + rabs_sum ts <= A ->
+  fin (fsum ts acc) /\ Rabs (R_ (fsum ts acc) - (x + rsum ts)) <= err_after (length ts) A e.
+Proof. induction ts as [|t ts IH]; intros acc x A e Fa Ft Ff He Hx HA; simpl.
+  - split; auto. rewrite Rplus_0_r. auto.
+  - inversion Ft; subst. destruct Ff as (F1 & Ff). simpl in HA.
+    assert (Eq := fadd_fin_eq acc t Fa H1 F1).
+    destruct (RN_err (R_ acc + R_ t)) as (eta & Heta & Herr).
+    assert (Hnew : Rabs (R_ (fadd acc t) - (x + R_ t)) <= e + u53 * (A + e) + eta0).
+    { rewrite Eq. replace (RN (R_ acc + R_ t) - (x + R_ t)) with ((RN (R_ acc + R_ t) - (R_ acc + R_ t)) + (R_ acc - x)) by lra.
+      eapply Rle_trans. apply Rabs_triang.
+      assert (Rabs (R_ acc + R_ t) <= A + e).
+      { replace (R_ acc + R_ t) with ((R_ acc - x) + (x + R_ t)) by lra. eapply Rle_trans. apply Rabs_triang.
+        assert (Rabs (x + R_ t) <= Rabs x + Rabs (R_ t)) by apply Rabs_triang.
+        generalize (rabs_sum_nonneg ts). lra. }
+      assert (u53 * Rabs (R_ acc + R_ t) <= u53 * (A + e)) by (apply Rmult_le_compat_l; auto; unfold u53; lra).
+      unfold eta0. lra. }
+    assert (He' : 0 <= e + u53 * (A + e) + eta0).
+    { eapply Rle_trans; [apply Rabs_pos|exact Hnew]. }
+    destruct (IH (fadd acc t) (x + R_ t) A (e + u53 * (A + e) + eta0) F1 H2 Ff He' Hnew) as (Ffin & Hfin).
+    { eapply Rle_trans; [|exact HA]. assert (Rabs (x + R_ t) <= Rabs x + Rabs (R_ t)) by apply Rabs_triang. lra. }
+    split; auto. replace (x + (R_ t + rsum ts)) with (x + R_ t + rsum ts) by lra. exact Hfin. Qed.
+
+(* closed form: as long as 2*u*n <= 1 (n <= 2^52 terms) the error grows at most linearly, n*(2*u*A + 2*eta) *)
+Lemma err_after_linear : forall n A e k, 0 <= A -> 0 <= e -> e <= INR k * (2 * u53 * A + 2 * eta0) ->
+  2 * u53 * INR (k + n) <= 1 -> err_after n A e <= INR (k + n) * (2 * u53 * A + 2 * eta0).
+Proof. induction n as [|n IH]; intros A e k HA He Hk Hn; simpl.
+  - rewrite Nat.add_0_r. auto.
+  - replace (k + S n)%nat with (S k + n)%nat in * by lia.
+    assert (E0 : 0 < eta0) by (unfold eta0; apply bpow_gt_0).
+    apply IH; auto.
+    + unfold u53. lra.
+    + rewrite S_INR. set (c := 2 * u53 * A + 2 * eta0) in *.
+      assert (Hk1 : 2 * u53 * INR k <= 1).
+      { eapply Rle_trans; [|exact Hn]. apply Rmult_le_compat_l. unfold u53; lra. apply le_INR. lia. }
+      assert (u53 * e <= u53 * (INR k * c)) by (apply Rmult_le_compat_l; auto; unfold u53; lra).
+      assert (0 <= c) by (unfold c, u53; nra).
+      assert (u53 * (INR k * c) <= c / 2). { replace (u53 * (INR k * c)) with ((2 * u53 * INR k) * (c / 2)) by lra. nra. }
+      unfold c in *. lra. Qed.
+
+Theorem fsum_error_linear : forall ts acc, fin acc -> Forall fin ts -> fsum_fin ts acc ->
+  2 * u53 * INR (length ts) <= 1 ->
+  Rabs (R_ (fsum ts acc) - (R_ acc + rsum ts)) <= INR (length ts) * (2 * u53 * (Rabs (R_ acc) + rabs_sum ts) + 2 * eta0).
+Proof. intros ts acc Fa Ft Ff Hn.
+  destruct (fsum_error ts acc (R_ acc) (Rabs (R_ acc) + rabs_sum ts) 0 Fa Ft Ff (Rle_refl 0)) as (_ & H).
+  - rewrite Rminus_diag_eq by reflexivity. rewrite Rabs_R0. lra.
+  - lra.
+  - eapply Rle_trans. exact H.
+    apply (err_after_linear (length ts) _ 0 0%nat).
+    + generalize (Rabs_pos (R_ acc)) (rabs_sum_nonneg ts). lra.
+    + lra.
+    + simpl. lra.
+    + simpl. exact Hn. Qed.
+
+(* the accumulation of FloatLinLe IS such a sum: sum_others = fsum over the terms of the other positions *)
+Fixpoint other_terms (term : f64 -> nat -> f64) (cs : list f64) (vs : list nat) (i j : nat) : list f64 :=
+  match cs, vs with
+  | c :: cs', v :: vs' => if Nat.eqb i j then other_terms term cs' vs' i (S j) else term c v :: other_terms term cs' vs' i (S j)
+  | _, _ => []
+  end.
+Lemma sum_others_fsum : forall term cs vs i j acc, sum_others term cs vs i j acc = fsum (other_terms term cs vs i j) acc.
+Proof. intros term. induction cs as [|c cs IH]; intros vs i j acc; simpl; auto.
+  destruct vs as [|v vs]; simpl; auto. destruct (Nat.eqb i j); simpl; apply IH. Qed.
